@@ -244,6 +244,47 @@ def zoned(benv, x):
     return benv
 
 
+def ambiguous(dt):
+    """The wall-clock reading of this zoned value occurs twice in its zone (clocks set back): its offset depends on datetime.fold."""
+    import datetime
+
+    naive = datetime.datetime(dt.year, dt.month, dt.day, dt.hour, dt.minute, dt.second, dt.microsecond)
+    try:
+        return dt.tzinfo.utcoffset(naive.replace(fold=0)) != dt.tzinfo.utcoffset(naive.replace(fold=1))
+    except Exception:
+        return False
+
+
+def repeated_hour_values():
+    """Whole-second instants inside the second pass of a repeated hour of the zone that zoned() derives from the value (deterministic)."""
+    import datetime
+    import zoneinfo
+
+    out = []
+    for zi, name in enumerate(IANA):
+        tz = zoneinfo.ZoneInfo(name)
+        for year in (1999, 2021, 2040):
+            t = datetime.datetime(year, 1, 1, tzinfo=datetime.timezone.utc)
+            step = datetime.timedelta(hours=1)
+            prev = t.astimezone(tz).utcoffset()
+            for _ in range(366 * 24):
+                t += step
+                cur = t.astimezone(tz).utcoffset()
+                if cur < prev:
+                    # clocks went back at some instant in (t - 1h, t]; t .. t + 30 min lies in the second pass for whole-hour changes
+                    base = int((t - datetime.datetime(1970, 1, 1, tzinfo=datetime.timezone.utc)).total_seconds())
+                    for sec in range(base + 60, base + 1800):
+                        us = sec * 10**6
+                        if (us // 1000003) % len(IANA) == zi:
+                            loc = (datetime.datetime(1970, 1, 1, tzinfo=datetime.timezone.utc) + datetime.timedelta(seconds=sec)).astimezone(tz)
+                            if loc.fold == 1:
+                                out.append(("ts", us))
+                                break
+                    break
+                prev = cur
+    return out
+
+
 def check(acc, label, node, x, cached=True):
     env = {"x": x}
     exp = expected_of(node, env)
@@ -271,7 +312,7 @@ def check(acc, label, node, x, cached=True):
             off = benv["x"].utcoffset()
             odd = off is not None and (off.seconds % 60 != 0 or off.microseconds != 0)
             acc.violation(
-                f"{r} zoned timestamp(string(t)) {'zone-offset-with-seconds' if odd else 'whole-minute-offset'} x={ec} obs={diag.oclass(out).split('@')[0]} exp=V:ts",
+                f"{r} zoned timestamp(string(t)) {'zone-offset-with-seconds' if odd else ('ambiguous-wall-time' if ambiguous(benv['x']) else 'whole-minute-offset')} x={ec} obs={diag.oclass(out).split('@')[0]} exp=V:ts",
                 f"{'interpreted' if r == 'I' else 'compiled'}: timestamp(string(t)) with t={x!r} carried in zone {benv['x'].tzinfo} (offset {off}) gave {core.jkey(out)[:100]}; string(t) = {str(benv['x'])!r}",
                 {"label": label, "x": MV.enc(x), "runner": r},
             )
@@ -349,6 +390,13 @@ def run(ctx):
             k += 1
             if ctx.mine(k):
                 check(acc, label, node, x)
+    # a host-bound timestamp whose wall-clock reading occurs twice in its zone (second pass)
+    zlabel, znode, _ = next(e for e in CONV if e[0].endswith(" zoned"))
+    for x in repeated_hour_values():
+        k += 1
+        if ctx.mine(k):
+            acc.hook("zoned-repeated-hour")
+            check(acc, zlabel, znode, x)
     acc.exhaustive.append("every boundary value of the generators through every conversion accepting its type")
     n = ctx.scale(120000, 2400000)
     for j in range(n):
